@@ -173,7 +173,15 @@ func Oracle(tr *udpx.Trace, unit string, limitStrict int) (string, []*engine.Fin
 			mustRelay := len(st.Sent) <= limitStrict
 			if len(st.ClientRecv) == 0 {
 				if mustRelay {
-					add("reply-lost", "step %d %s: reply of %d bytes was not relayed", i, op, len(st.Sent))
+					var reports []string
+					for _, m := range st.Metrics {
+						reports = append(reports, fmt.Sprintf("%s:%s(%d,%d)", m.Kind, m.Status, m.A, m.B))
+					}
+					var net []string
+					for _, ev := range st.Net {
+						net = append(net, fmt.Sprintf("%s %s %s %d", ev.Kind, ev.A, ev.B, ev.N))
+					}
+					add("reply-lost", "step %d %s: reply of %d bytes was not relayed (server reports in this step: %v; socket events: %v)", i, op, len(st.Sent), reports, net)
 				}
 				break
 			}
@@ -339,8 +347,15 @@ func twoListenerInputs() [][]udpx.Op {
 func scenario(unit string, ops []udpx.Op, limitStrict int) *engine.Scenario {
 	tr := &udpx.Trace{}
 	sc := &engine.Scenario{Name: unit, Opt: vrt.Options{Horizon: udpx.Horizon}}
+	// a client with an IPv6 address needs a proxy socket that serves both families
+	dual := false
+	for _, op := range ops {
+		if (op.K == "S" || op.K == "R") && op.C == 3 {
+			dual = true
+		}
+	}
 	sc.Body = func() {
-		udpx.Run(udpx.Config{Keys: udpx.DefaultKeys(), NatTimeout: natTimeout}, ops, tr)
+		udpx.Run(udpx.Config{Keys: udpx.DefaultKeys(), NatTimeout: natTimeout, DualStack: dual}, ops, tr)
 	}
 	sc.Check = func(x *vrt.Exec) (string, bool, []*engine.Finding) {
 		fs := hk.Generic(x, hk.Opts{})
@@ -376,6 +391,14 @@ func sizeCases() [][]udpx.Op {
 				o.Key = key
 				out = append(out, []udpx.Op{o, {K: "R", C: 0, T: t, N: n}, {K: "R", C: 0, T: 1, N: 20}})
 			}
+		}
+	}
+	// a client with an IPv6 address (datagrams to it may be 20 bytes larger than to an IPv4 client):
+	// replies around the limits must arrive intact or not at all
+	for key := 0; key < 4; key++ {
+		o := udpx.Op{K: "S", C: 3, Key: key, T: 1, N: 10}
+		for _, n := range []int{65400, 65440, 65453, 65460, 65469, 65470, 65476, 65480, 65485, 65486, 65490, 65500, 65507} {
+			out = append(out, []udpx.Op{o, {K: "R", C: 3, T: 1, N: n}, {K: "R", C: 3, T: 1, N: 20}})
 		}
 	}
 	// replies from link-local senders: the receiving socket reports them with an IPv6 zone
